@@ -3,6 +3,29 @@ TRUST = ("trusted: CPython ast; the checker's own engines; for table rules the i
          "against the real loaders at development time). Known findings are listed in KNOWN_FINDINGS.txt. ")
 
 META = {
+    "C01": {
+        "engine": "sa: dataflow + guard engine + table model",
+        "technique": "def-use/guard analysis of the assignment path + exhaustive state-name decision tables vs PATCHES.xml",
+        "text": "decides the structural necessary conditions of 'exactly the force field's parameters': exact hit/miss "
+                "partition with stores of the unmodified get_params results only (all truth assignments of the per-atom "
+                "body enumerated), whole-program who-may-write ffcharge/radius, unmodified lookup keys, DAT column "
+                "binding, full-match aliasing with copy-all, and for every (residue, position, state) cell that the "
+                "lookup name computed from the code's set_state methods is the name PATCHES.xml gives the applied "
+                "patches. The SAX state machine beyond these facts and user-supplied files are not decided.",
+        "note": TRUST,
+    },
+    "C02": {
+        "engine": "sa: table model x cell construction, guard engine",
+        "technique": "exhaustive charge table over (residue x position x state x force field) cells + decision "
+                     "analysis of assign_termini + must-pass check of the integrality guard",
+        "text": "for every fully parameterised cell (amino acids at mid/N/C/neutral-N/neutral-C in all protonation "
+                "states, nucleotides mid/5'/3' and every 5'+3' pair, water) in the six force fields the charge sum is "
+                "compared with the formal charge derived by valence counting on the patched topology; assign_termini "
+                "is evaluated over chain shapes x options x cyclic/open for 'exactly one terminal patch per end'; "
+                "terminal patches are idempotent; the total-charge guard is a must-pass with a bounded tolerance; flag "
+                "combinations produced are consumed into full cells. Run-time assignment itself is C01.",
+        "note": TRUST + "Chemistry: side-chain formal charge from the atom set (7 rows), valence counting for termini.",
+    },
     "C06": {
         "engine": "sa: E5 guard tables x E4 table model",
         "technique": "decision-table extraction (conditional constant propagation over a finite domain) vs "
